@@ -10,13 +10,14 @@ Open Scope nat_scope.
 
 Definition is_nil {A} (l : list A) : bool := match l with [] => true | _ => false end.
 
-(* expressions: everything except dict displays, lambda, comprehensions, slices
-   and calls with named / * / ** arguments *)
+(* expressions: everything except `not in`, dict displays, lambda, comprehensions,
+   slices and calls with named / * / ** arguments *)
 Fixpoint ok_expr (e : expr) : bool :=
   match e with
   | EName _ _ | EInt _ | EStr _ | EUnsup _ => true
   | EParen e | EUnary _ _ e | EDot e _ _ => ok_expr e
-  | EBinary _ _ x y | EAnd x y | EOr x y | EIndex x y _ => ok_expr x && ok_expr y
+  | EBinary o _ x y => negb (binop_eqb o NotIn) && ok_expr x && ok_expr y
+  | EAnd x y | EOr x y | EIndex x y _ => ok_expr x && ok_expr y
   | ECond c t f => ok_expr c && ok_expr t && ok_expr f
   | ETuple es | EList es => forallb ok_expr es
   | ECall fn args _ => ok_expr fn && forallb (fun a => match a with APos e => ok_expr e | _ => false end) args
@@ -54,13 +55,14 @@ Definition ok_fundef (fd : fundef) : bool :=
 Definition in_fragment (p : program) : bool := forallb ok_stmt (p_body p).
 
 (* function ids identify definitions: looking an id up in the syntax tree (what
-   the reference evaluator does) and in the compiled program agree, and every
-   definition found is in the fragment.  Decidable for a concrete program;
-   holds whenever the ids of the defs are pairwise distinct. *)
+   the reference evaluator does) and in the compiled program agree, every
+   definition found is in the fragment and is not nested inside a block that
+   binds variables (function, comprehension, file block with loads).
+   Decidable for a concrete program; holds whenever the ids of the defs are
+   pairwise distinct and no def is nested in another. *)
 Definition funs_ok (p : program) : Prop :=
   forall fid,
-    match find_fun p fid with
-    | Some fd => ok_fundef fd = true /\ find_code (cp_funs (compile_prog p)) fid = Some (compile_fun p fd)
+    match find_def p fid with
+    | Some (fd, encl) => ok_fundef fd = true /\ encl = [] /\ find_code (cp_funs (compile_prog p)) fid = Some (compile_fun p fd)
     | None => find_code (cp_funs (compile_prog p)) fid = None
     end.
-
